@@ -2,7 +2,7 @@
 From Coq Require Import List NArith Arith Lia Bool.
 From Verif Require Import Abs.Quorum Abs.RaftBase Abs.CfgQuorum Abs.CfgBase Abs.CfgRaft
   Abs.CfgInvDefs Abs.CfgInvT Abs.CfgInvFrame Abs.CfgInvStepA Abs.CfgInvStepB Abs.CfgInvStepC
-  Abs.CfgInvStepD Abs.CfgInvStepE Abs.CfgInvStepF Abs.CfgInvStepG.
+  Abs.CfgInvStepD Abs.CfgInvStepE Abs.CfgInvStepF Abs.CfgInvStepG Abs.CfgInvStepH.
 Import ListNotations.
 Open Scope N_scope.
 
@@ -26,6 +26,8 @@ Proof.
   - eapply inv_commit; eassumption.
   - apply inv_flush; assumption.
   - apply inv_crash; assumption.
+  - split; [apply facts_install; assumption|].
+    eapply (xinv_install V0 V0_nodup); eassumption.
 Qed.
 
 Lemma dinv_step s s' : inv V0 s -> dinv s -> step V0 s s' -> dinv s'.
@@ -45,6 +47,7 @@ Proof.
   - apply dinv_commit; [assumption | lia].
   - apply dinv_flush; assumption.
   - apply dinv_crash; assumption.
+  - apply dinv_install; [assumption | exact (proj2 I') | lia].
 Qed.
 
 Theorem reachable_inv2 s : Reachable V0 s -> inv V0 s /\ dinv s.
